@@ -3,7 +3,9 @@ package sym
 
 import (
 	"fmt"
+	"math"
 	"math/big"
+	"strconv"
 	"sort"
 	"strings"
 )
@@ -141,37 +143,37 @@ func NewCtx() *Ctx {
 func (c *Ctx) NumNodes() int { return c.nextID }
 
 func (c *Ctx) key(t *Term) string {
-	var sb strings.Builder
-	sb.WriteByte(byte(t.Op) + 'A')
-	sb.WriteByte(byte(t.Sort) + '0')
+	buf := make([]byte, 0, 32)
+	buf = append(buf, byte(t.Op)+'A', byte(t.Sort)+'0')
 	switch t.Op {
 	case OpConst:
 		switch t.Sort {
 		case SBool:
 			if t.B {
-				sb.WriteByte('T')
+				buf = append(buf, 'T')
 			} else {
-				sb.WriteByte('F')
+				buf = append(buf, 'F')
 			}
 		case SBV, SInt:
-			sb.WriteString(t.Val.String())
+			buf = t.Val.Append(buf, 16)
 		case SReal:
-			sb.WriteString(t.Rat.String())
+			buf = append(buf, t.Rat.String()...)
 		case SFP:
-			fmt.Fprintf(&sb, "%x", t.F)
+			buf = strconv.AppendUint(buf, math.Float64bits(t.F), 16)
 		}
 	case OpVar:
-		sb.WriteString(t.Name)
+		buf = append(buf, t.Name...)
 	case OpUF:
-		sb.WriteString(t.Name)
-		sb.WriteByte(':')
+		buf = append(buf, t.Name...)
+		buf = append(buf, ':')
 		fallthrough
 	default:
 		for _, a := range t.Args {
-			fmt.Fprintf(&sb, "%d,", a.ID)
+			buf = strconv.AppendInt(buf, int64(a.ID), 36)
+			buf = append(buf, ',')
 		}
 	}
-	return sb.String()
+	return string(buf)
 }
 
 func (c *Ctx) mk(t *Term) *Term {
@@ -440,28 +442,45 @@ func (c *Ctx) Ite(cond, a, b *Term) *Term {
 
 const pushDepth = 24
 
-// pushIte distributes a unary function over an ite tree whose leaves are (mostly) constants.
+// pushIte distributes a unary function over an ite DAG whose leaves are (mostly) constants.
+// Memoised per call and bounded in the number of distinct nodes visited.
 func (c *Ctx) pushIte(t *Term, depth int, f func(*Term) *Term) (*Term, bool) {
 	if t.Op == OpConst {
 		return f(t), true
 	}
-	if t.Op == OpIte && depth > 0 {
-		a, ok1 := c.pushIte(t.Args[1], depth-1, f)
-		b, ok2 := c.pushIte(t.Args[2], depth-1, f)
-		if ok1 && ok2 {
-			return c.Ite(t.Args[0], a, b), true
-		}
-		if ok1 || ok2 {
-			if !ok1 {
-				a = f(t.Args[1])
-			}
-			if !ok2 {
-				b = f(t.Args[2])
-			}
-			return c.Ite(t.Args[0], a, b), true
-		}
+	if t.Op != OpIte {
+		return nil, false
 	}
-	return nil, false
+	memo := map[int]*Term{}
+	okm := map[int]bool{}
+	budget := 48
+	var rec func(t *Term, depth int) (*Term, bool)
+	rec = func(t *Term, depth int) (*Term, bool) {
+		if t.Op == OpConst {
+			return f(t), true
+		}
+		if r, seen := memo[t.ID]; seen {
+			return r, okm[t.ID]
+		}
+		if t.Op != OpIte || depth == 0 || budget <= 0 {
+			return nil, false
+		}
+		budget--
+		a, ok1 := rec(t.Args[1], depth-1)
+		b, ok2 := rec(t.Args[2], depth-1)
+		var r *Term
+		ok := false
+		if ok1 && ok2 {
+			r, ok = c.Ite(t.Args[0], a, b), true
+		}
+		memo[t.ID], okm[t.ID] = r, ok
+		return r, ok
+	}
+	r, ok := rec(t, depth)
+	if !ok || budget <= 0 {
+		return nil, false
+	}
+	return r, true
 }
 
 func (c *Ctx) Eq(a, b *Term) *Term {
